@@ -220,6 +220,7 @@ structure MInv (n m : Nat) (nb : Nbrs) (s : LS) : Prop where
   age : s.op.age = s.path.length
   skip : s.skipDeage = false
   tsCap : n ≤ s.sc.timesSeen.data.size
+  tsLen : s.sc.timesSeen.len = n
   phase1 : s.count = 0 → s.currentBest.len = 0
   found : 0 < s.count → s.currentBest.len = m
 
@@ -357,6 +358,7 @@ theorem mainLoop_spec (hst : StablePerm) {n m : Nat} {nb : Nbrs} :
               · show op'.age = _; rw [r3]; exact hage2
               · exact hskip
               · show n ≤ sc'.timesSeen.data.size; omega
+              · rfl
               · intro h0
                 have h0' : s1.count = 0 := by
                   have : s2.count = 0 := h0
@@ -435,6 +437,7 @@ theorem allocated_perm (hst : StablePerm) {fuel n m : Nat} {nb : Nbrs} {op0 : OP
       · show op2.age = _; rw [f5, r3, hage]; rfl
       · rfl
       · show n ≤ sc1.timesSeen.data.size; omega
+      · rfl
       · intro _; rfl
       · intro hc; exact absurd hc (Nat.lt_irrefl 0)
     obtain ⟨q1, q2, q3⟩ := mainLoop_spec hst fuel worse _ s hI (fun _ => hwf) hmain
